@@ -470,6 +470,9 @@ def assumption(prog, fn, kind):
             x0 = strip(x)
             if is_field(arg)(x0) and strip(x0[1] if x0[0] == "field" else x0[2][0])[0] == "param":
                 out.add(x0)
+        if not out and fn.impl_self:
+            # the function does not touch the list itself (its helpers do): state the assumption on the receiver's field
+            out.add(("field", ("param", 1), arg, fn.impl_self))
         return sorted(out, key=repr)
     if what == "item":
         return sorted(clause_items(fn, lambda s: is_field(arg)(s) and strip(s[1] if s[0] == "field" else s[2][0])[0] == "param"), key=repr)
